@@ -485,6 +485,7 @@ func nearBoundary(u *big.Rat, lo, hi float64) (*big.Rat, int) {
 var (
 	rat2eps = ratOf(2 * eps)
 	rat4eps = ratOf(4 * eps)
+	rat8eps = ratOf(8 * eps)
 )
 
 // exactLeafIndex returns floor(2^30·s(u)) clamped to [0,2^30-1] for the exact
